@@ -301,8 +301,15 @@ class Client(object):
         """
         Service connection attempt
         If not already connected make a nonblocking attempt
+        If reconnectable and connection was cutoff by far side then reopen
+        once reconnect timer has expired so new attempts can be made
         Returns .connected
         """
+        if self.cutoff and self.reconnectable:  # lost connection
+            if self.timeout > 0.0 and self.timer.expired:  # timed out
+                self.reopen()  # resets .cutoff and .connected
+                self.timer.restart()
+
         if not self.connected:
             self.connect()
 
